@@ -52,6 +52,7 @@ type Result struct {
 	W       *World
 	Ref     *RefDB
 	Final   *Readout
+	ErrPat  string // one letter per operation: '.' accepted, 'E' rejected
 	U       Universe
 	OpenErr error
 }
@@ -122,8 +123,10 @@ func Exec(h []Op, m Mode) *Result {
 	}
 	for i, o := range h {
 		var before *Readout
+		var beforeOpts ReadOpts
 		if o.K == Restart && m.RestartDiff {
-			before = Read(w.E, u, readOpts())
+			beforeOpts = readOpts()
+			before = Read(w.E, u, beforeOpts)
 		}
 		err := w.Do(i, o)
 		now := w.Times[len(w.Times)-1]
@@ -137,6 +140,11 @@ func Exec(h []Op, m Mode) *Result {
 			}
 		}
 		ok := ref.Step(o, now)
+		if err != nil {
+			res.ErrPat += "E"
+		} else {
+			res.ErrPat += "."
+		}
 		if len(ref.Evolved) > 0 {
 			for _, id := range ref.Evolved {
 				u.IDs = addUniq(u.IDs, id)
@@ -151,7 +159,7 @@ func Exec(h []Op, m Mode) *Result {
 			}
 		}
 		if before != nil && w.E != nil {
-			after := Read(w.E, u, readOpts())
+			after := Read(w.E, u, beforeOpts)
 			// the universe may have grown by evolved ids only before this point, both reads use the same u
 			ds := Compare(before, after, ref.TolFor())
 			for _, k := range kindsOf(ds) {
@@ -280,6 +288,9 @@ func DDMinOps(items []Op, fails func([]Op) bool) []Op {
 func (r *Result) ShortKinds() string {
 	if len(r.Fails) == 0 {
 		return "ok"
+	}
+	if p := r.Primary(); p != nil {
+		return p.Kind
 	}
 	k := []string{}
 	for _, f := range r.Fails {
